@@ -61,7 +61,7 @@ impl Array {
             "[{}]",
             self.elements
                 .iter()
-                .map(|v| v.debug(depth + 1))
+                .map(|v| v.debug(depth))
                 .collect::<Box<[_]>>()
                 .join(", ")
         )
